@@ -248,21 +248,21 @@ type c01Case struct {
 }
 
 type refactorer struct {
-	t       *rapid.T
-	mod     *yst            // main module statement
-	subs    []*yst          // submodules
-	imps    []*yst          // imported modules
-	gcount  int
-	icount  int
-	steps   []string
+	t      *rapid.T
+	mod    *yst   // main module statement
+	subs   []*yst // submodules
+	imps   []*yst // imported modules
+	gcount int
+	icount int
+	steps  []string
 }
 
 // containers returns statements that hold data definitions, with their absolute schema path ("" when not addressable)
 type holder struct {
-	s      *yst
-	path   string // schema path for augment targets; "" = not a legal / supported augment target
-	inGrp  bool
-	anc    []*yst // ancestors (scopes where a grouping may be placed)
+	s     *yst
+	path  string // schema path for augment targets; "" = not a legal / supported augment target
+	inGrp bool
+	anc   []*yst // ancestors (scopes where a grouping may be placed)
 }
 
 func (r *refactorer) holders() []holder {
@@ -302,6 +302,13 @@ func (r *refactorer) holders() []holder {
 			case "augment":
 				if s.Kw == "module" || s.Kw == "submodule" {
 					walk(k, "", append(anc, s), inGrp)
+				}
+			case "uses":
+				// what the augments of a uses add can be factored like anything else
+				for _, a := range k.Kids {
+					if a.Kw == "augment" {
+						walk(a, "", append(append(anc, s), k), inGrp)
+					}
 				}
 			}
 		}
@@ -404,13 +411,13 @@ func (r *refactorer) extractGrouping() bool {
 		// a grouping defined in the same statement that uses it (any position); a case cannot hold groupings, its
 		// nearest enclosing container, list, grouping or module can
 		at := h.s
-		for i := len(h.anc) - 1; i >= 0 && (at.Kw == "case" || at.Kw == "choice" || at.Kw == "augment" || at.Kw == "rpc" || at.Kw == "action"); i-- {
+		for i := len(h.anc) - 1; i >= 0 && (at.Kw == "case" || at.Kw == "choice" || at.Kw == "augment" || at.Kw == "uses" || at.Kw == "rpc" || at.Kw == "action"); i-- {
 			at = h.anc[i]
 		}
 		at.Kids = append(at.Kids, g)
 	case "ancestor":
 		anc := h.anc[rapid.IntRange(1, len(h.anc)-1).Draw(r.t, "anc")]
-		if anc.Kw == "choice" || anc.Kw == "case" || anc.Kw == "augment" || anc.Kw == "rpc" || anc.Kw == "action" {
+		if anc.Kw == "choice" || anc.Kw == "case" || anc.Kw == "augment" || anc.Kw == "uses" || anc.Kw == "rpc" || anc.Kw == "action" {
 			r.mod.Kids = append(r.mod.Kids, g)
 			scope = "module"
 		} else {
@@ -445,6 +452,26 @@ func (r *refactorer) extractGrouping() bool {
 		g.Arg = fmt.Sprintf("g%d", r.icount)
 		usesArg = "i1:" + g.Arg
 		r.steps = append(r.steps, "same-name-other-module")
+		if !mentionsPrefix(g, "i1:") && rapid.IntRange(0, 2).Draw(r.t, "via-third-module") == 0 {
+			// the imported module takes the content from a third module, which it knows under the prefix that is main's
+			// own: prefixes are per file
+			var imp2 *yst
+			for _, m := range r.imps {
+				if m.Arg == "imp2" {
+					imp2 = m
+				}
+			}
+			if imp2 == nil {
+				imp2 = st("module", "imp2", st("namespace", "urn:imp2"), st("prefix", "i2"), st("typedef", "tdef", st("type", "int32")))
+				r.imps = append(r.imps, imp2)
+				imp1 := r.imps[0]
+				rest := append([]*yst{}, imp1.Kids[2:]...)
+				imp1.Kids = append(append(imp1.Kids[:2:2], st("import", "imp2", st("prefix", "m"))), rest...)
+			}
+			imp2.Kids = append(imp2.Kids, st("grouping", g.Arg, g.Kids...))
+			g.Kids = []*yst{st("uses", "m:"+g.Arg)}
+			r.steps = append(r.steps, "grouping-of-third-module-under-main's-prefix")
+		}
 	}
 	u.Arg = usesArg
 	if f := commonFeature(g.Kids); f != "" && rapid.Bool().Draw(r.t, "hoist-feature") {
@@ -669,8 +696,27 @@ func (r *refactorer) usesAugment() bool {
 		}
 	}
 	collect(r.mod)
-	type cand struct{ u, target *yst }
+	type cand struct {
+		u, target *yst
+		path      string
+	}
 	var cands []cand
+	// a choice of the grouping (also one level down in a container) whose last case is written out: that case can be
+	// added by the augment instead
+	choices := func(k, g *yst) {
+		var look func(x *yst, path string, depth int)
+		look = func(x *yst, path string, depth int) {
+			for _, gk := range x.Kids {
+				if gk.Kw == "choice" && len(gk.Kids) >= 2 && gk.Kids[len(gk.Kids)-1].Kw == "case" && countKw(gk, "case")+countData(gk) >= 2 {
+					cands = append(cands, cand{k, gk, path + gk.Arg})
+				}
+				if gk.Kw == "container" && depth == 0 {
+					look(gk, path+gk.Arg+"/", 1)
+				}
+			}
+		}
+		look(g, "", 0)
+	}
 	var walk func(x *yst)
 	walk = func(x *yst) {
 		for _, k := range x.Kids {
@@ -679,10 +725,11 @@ func (r *refactorer) usesAugment() bool {
 					for _, gk := range g.Kids {
 						if gk.Kw == "container" {
 							if _, last := dataRun(gk); last >= 0 && last == len(gk.Kids)-1 && countData(gk) >= 2 && !usesLocalGrouping(gk.Kids[last], r.mod) {
-								cands = append(cands, cand{k, gk})
+								cands = append(cands, cand{k, gk, gk.Arg})
 							}
 						}
 					}
+					choices(k, g)
 				}
 			}
 			walk(k)
@@ -694,9 +741,15 @@ func (r *refactorer) usesAugment() bool {
 	}
 	c := cands[rapid.IntRange(0, len(cands)-1).Draw(r.t, "uaug")]
 	moved := c.target.Kids[len(c.target.Kids)-1]
+	if usesLocalGrouping(moved, r.mod) {
+		return false
+	}
 	c.target.Kids = c.target.Kids[:len(c.target.Kids)-1]
-	c.u.Kids = append(c.u.Kids, st("augment", c.target.Arg, moved))
+	c.u.Kids = append(c.u.Kids, st("augment", c.path, moved))
 	r.steps = append(r.steps, "uses-augment")
+	if moved.Kw == "case" {
+		r.steps = append(r.steps, "uses-augment-adds-case")
+	}
 	return true
 }
 
